@@ -247,8 +247,8 @@ impl E2Run for Dns {
 
     fn budget(&self, tier: &Tier) -> (u64, u64) {
         match tier {
-            Tier::Quick => (10_000, 60),
-            Tier::Thorough => (2_000_000, 3000),
+            Tier::Quick => (100_000, 50),
+            Tier::Thorough => (8_000_000, 3000),
         }
     }
 
